@@ -293,7 +293,7 @@ def rule_dispatch(ctx):
 RULES = [("fresh", rule_fresh), ("commit", rule_commit), ("apply", rule_apply), ("suffix", rule_suffix), ("tokens", rule_tokens), ("dispatch", rule_dispatch)]
 # the position command is built from the FEN loader, the legality filter and make_move: their clauses are decided here too
 RULES += engine.premise_rules("c07", ["setters", "letters", "fields", "castle-letters", "side-ep", "history", "build"])
-RULES += engine.premise_rules("c01", ["filter", "probe", "square-arith", "capture-src"])
+RULES += engine.movegen_premises()
 RULES += engine.premise_rules("c03", ["revocation-table", "rights-monotone", "clock", "ep", "fullmove", "placement"])
 
 
